@@ -153,3 +153,51 @@ pub open spec fn level_shift(l: PageTableLevel) -> u64 {
         assert(1u64 << 12u64 == 0x1000u64 && 1u64 << 21u64 == 0x20_0000u64 && 1u64 << 30u64 == 0x4000_0000u64 && 1u64 << 39u64 == 0x80_0000_0000u64) by (bit_vector);
         assert(pow2_u64(0x1000u64) && pow2_u64(0x20_0000u64) && pow2_u64(0x4000_0000u64) && pow2_u64(0x80_0000_0000u64)) by (bit_vector);
 //@ end
+
+// ---- impl Step for PageTableIndex (C05) --------------------------------------
+
+//@ verbatim
+/// ASSUMED contract of core's `<u16 as Step>::steps_between` (unstable trait, cannot be named on Verus's toolchain);
+/// the call `Step::steps_between(&start.0, &end.0)` is rewritten to this helper (stated rewrite).
+#[verifier::external_body]
+pub fn u16_steps_between(start: &u16, end: &u16) -> (r: (usize, Option<usize>))
+    ensures
+        *start <= *end ==> r.0 == (*end - *start) as usize && r.1 == Some((*end - *start) as usize),
+        *start > *end ==> r.0 == 0 && r.1 is None,
+{
+    unimplemented!()
+}
+
+//@ end
+
+//@ fn src/structures/paging/page_table.rs | impl Step for PageTableIndex | steps_between
+//@ as impl PageTableIndex
+//@ sub /Step::steps_between\(/ => u16_steps_between(
+//@ obligation C05 C05.PageTableIndex_Step_steps_between.exact_or_none
+//@ A
+    requires wf_idx(*start), wf_idx(*end),
+    ensures
+        start.0 <= end.0 ==> r.0 == (end.0 - start.0) as usize && r.1 == Some((end.0 - start.0) as usize),
+        start.0 > end.0 ==> r.0 == 0 && r.1 is None,
+//@ end
+
+//@ fn src/structures/paging/page_table.rs | impl Step for PageTableIndex | forward_checked
+//@ as impl PageTableIndex
+//@ obligation C05 C05.PageTableIndex_Step_forward_checked.within_0_512
+//@ sub /\|\| Self::new\(idx as u16\)/ => || -> (q: Self) requires idx < 512 ensures q.0 == idx as u16 { Self::new(idx as u16) }
+//@ A
+    requires wf_idx(start),
+    ensures
+        r is Some <==> start.0 + count < 512,
+        r is Some ==> r->Some_0.0 == start.0 + count && wf_idx(r->Some_0),
+//@ end
+
+//@ fn src/structures/paging/page_table.rs | impl Step for PageTableIndex | backward_checked
+//@ as impl PageTableIndex
+//@ obligation C05 C05.PageTableIndex_Step_backward_checked.within_0_512
+//@ A
+    requires wf_idx(start),
+    ensures
+        r is Some <==> start.0 >= count,
+        r is Some ==> r->Some_0.0 == start.0 - count && wf_idx(r->Some_0),
+//@ end
